@@ -124,8 +124,43 @@ func (v *Validator) typeOfValue(val types.Value) (cedarType, error) {
 	case types.String:
 		return typeString{}, nil
 	case types.EntityUID:
+		return v.typeOfEntityUID(val)
+	// The text parser only produces the literals above, but a policy decoded from JSON or built
+	// programmatically may carry any value.
+	case types.Decimal:
+		return typeExtension{name: "decimal"}, nil
+	case types.IPAddr:
+		return typeExtension{name: "ipaddr"}, nil
+	case types.Datetime:
+		return typeExtension{name: "datetime"}, nil
+	case types.Duration:
+		return typeExtension{name: "duration"}, nil
+	case types.Set:
+		var elem cedarType = typeNever{}
+		for e := range val.All() {
+			et, err := v.typeOfValue(e)
+			if err != nil {
+				return nil, err
+			}
+			lub, err := v.leastUpperBound(elem, et)
+			if err != nil {
+				return nil, fmt.Errorf("set literal has elements of incompatible types")
+			}
+			elem = lub
+		}
+		return typeSet{element: elem}, nil
+	case types.Record:
+		attrs := make(map[types.String]attributeType, val.Len())
+		for k, e := range val.All() {
+			et, err := v.typeOfValue(e)
+			if err != nil {
+				return nil, err
+			}
+			attrs[k] = attributeType{typ: et, required: true}
+		}
+		return typeRecord{attrs: attrs}, nil
 	}
-	return v.typeOfEntityUID(val.(types.EntityUID))
+	return nil, fmt.Errorf("unsupported literal value of type %T", val)
 }
 
 func (v *Validator) typeOfEntityUID(uid types.EntityUID) (cedarType, error) {
